@@ -552,9 +552,9 @@ SYN_TABLES = dict(
 )
 
 
-def synth_code(units, alt=False, shadow=False):
+def synth_code(units, alt=False, scope="module"):
     """a real code object of this interpreter whose code units are `units` = [[cls, byte], ...];
-    shadow: the free variable has the cell variable's name (MC_Decode scope "shadow")"""
+    scope "shadow": the free variable has the cell variable's name; "dup": the first constant is there twice"""
     b = bytearray()
     for i, (cls, byte) in enumerate(units):
         name = (REP_OP2.get(cls) if alt and i % 2 else None) or REP_OP[cls]
@@ -564,7 +564,8 @@ def synth_code(units, alt=False, shadow=False):
     assert 2 * n <= 254
     return cpy.code_replace(
         cpy._BASE, co_code=bytes(b), co_lnotab=table, co_nlocals=2, co_stacksize=10, co_flags=0,
-        **(dict(SYN_TABLES, co_freevars=SYN_TABLES["co_cellvars"]) if shadow else SYN_TABLES)
+        **(dict(SYN_TABLES, co_freevars=SYN_TABLES["co_cellvars"]) if scope == "shadow"
+           else dict(SYN_TABLES, co_consts=(0, "s", 0)) if scope == "dup" else SYN_TABLES)
     )
 
 
@@ -572,7 +573,7 @@ def units_to_file(cases, path):
     """cases: [{id, units:[[cls, byte]..]}]"""
     evs = []
     for c in cases:
-        code = synth_code(c["units"], c.get("alt", False), c.get("shadow", False))
+        code = synth_code(c["units"], c.get("alt", False), c.get("scope") or "module")
         evs.append(full_event(code, c["id"]))
     with open(path, "w") as fh:
         for e in evs:
